@@ -47,7 +47,7 @@ LEVEL_TEXT = ("Exploration: thousands of generated cells per run; every reaction
               "(SI vs target and amount per mineral incl. restrictions, site totals per exchanger / surface site type from the "
               "database's own species list, solid-solution fractions and ideal activities).")
 FLOORS = {"quick": 400, "thorough": 3000}
-SHARDS = {"quick": 4, "thorough": 4}
+SHARDS = {"quick": 8, "thorough": 16}
 BUDGET = {"quick": 320, "thorough": 3200, "replay": 1}
 DBS = {"quick": ("phreeqc.dat", "phreeqc.dat", "phreeqc.dat", "wateq4f.dat", "pitzer.dat"),
        "thorough": ("phreeqc.dat", "phreeqc.dat", "wateq4f.dat", "pitzer.dat")}
@@ -470,6 +470,8 @@ def check_cell(case, ctx, I):
             cl.append("pp_zero_start")
     if case.get("exch", {}).get("nex") or case.get("surf", {}).get("nex"):
         cl.append("excluded_trigger:sites_tied_to_mineral_with_element_absent_from_solution")
+    if case.get("incr_forced"):
+        cl.append("excluded_trigger:tied_sites_in_cumulative_multi_step_cells_run_incrementally")
     if "exch" in case:
         cl.append("exch_" + case["exch"]["kind"])
     if "surf" in case:
